@@ -341,11 +341,9 @@ func duties(in *Input) []*Input {
 		} else if o.Auction == "none" {
 			o.Auction = "err"
 		}
-		if !isNodeClientProvider(in) {
-			o.NodeClient, o.NodeClientVal = "", ""
-		} else if !isNodeClientProvider(o) {
-			o.NodeClient = "err"
-		}
+		// one service instance has one proposal provider, and the node behind it is one client: it calls
+		// itself the same for every duty (a client string remembered by the service is no fault)
+		o.NodeClient, o.NodeClientVal = in.NodeClient, in.NodeClientVal
 		o.Others, o.Order = nil, nil
 		ds = append(ds, o)
 	}
